@@ -184,8 +184,9 @@ func TestC18(t *testing.T) {
 	r.Assume("bounded-liveness: a wait is broken only if AcquireConn/Do has not returned " + (hangFirst + hangSecond).String() + " after the history started (nominal history length < 1 s); returns later than deadline+" + slack.String() + " are reported as inconclusive, never as violations")
 	r.Assume("the linearizability model covers the no-wait pool only (MaxConnWaitTimeout = 0, connsCleaner not started); a failed dial is recorded as two operations (slot taken at [call, Dial entry], slot returned at [Dial return, return]); LIFO/FIFO order is not part of the property and only counted (skipped_order_mismatch) in sequential histories")
 	r.Assume("SetMaxConns changes during a history are not exercised")
+	r.Assume("key attribution only: a surplus is filed under closeconn-slot-released-before-close when all surplus sockets were inside CloseConn (hc.close.enter seen, socket not closed) and, in that history, no socket was ever closed before its CloseConn reached hc.close.afterdec; any other surplus is live-conns-exceed-maxconns")
 
-	n := r.N(1000, 20000)
+	n := r.N(1000, 16000)
 	ag := &agg{hits: map[string]int{}, sigs: map[uint64]struct{}{}, maxLive: map[string]int{}, otherErr: map[string]int{}}
 
 	jobs := make(chan porcJob, 256)
